@@ -1,1 +1,2 @@
+import Properties.C01
 import Properties.C02
